@@ -728,9 +728,10 @@ type instance struct {
 	byRaw map[string]int
 }
 
-// build creates every certificate of the topology, issuers first. std selects
-// crypto/x509 (twin instance) instead of smx509 as the creator.
-func (t *topo) build(c *mon.Case, label string, keys []key, std bool) (*instance, error) {
+// build creates every certificate of the topology, issuers first. std marks the twin
+// instance that crypto/x509 parses and verifies; its certificates are created by
+// crypto/x509 (stdCreates) or by smx509 (then crypto/x509 must accept what smx509 created).
+func (t *topo) build(c *mon.Case, label string, keys []key, std, stdCreates bool) (*instance, error) {
 	in := &instance{label: label, der: make([][]byte, len(t.certs)), sm: make([]*smx509.Certificate, len(t.certs)),
 		std: make([]*x509.Certificate, len(t.certs)), byRaw: map[string]int{}}
 	var create func(i, depth int) error
@@ -761,7 +762,7 @@ func (t *topo) build(c *mon.Case, label string, keys []key, std bool) (*instance
 		}
 		var der []byte
 		var err error
-		if std {
+		if std && stdCreates {
 			der, err = x509.CreateCertificate(libR, tm, parent.(*x509.Certificate), keys[s.key].pub, priv)
 		} else {
 			if pi := mon.Try(func() { der, err = smx509.CreateCertificate(libR, tm, parent, keys[s.key].pub, priv) }); pi != nil {
@@ -937,7 +938,7 @@ func chains(x *mon.Ctx) {
 	}
 	n := x.Scale(4000, 80000)
 	for i := 0; i < n; i++ {
-		c := x.Begin("topology #%d recipe=%s (generated from the case PRNG; built with SM2 keys, with mixed key types and, through crypto/x509, with ECDSA keys)", i, recipeName(i))
+		c := x.Begin("topology #%d recipe=%s (generated from the case PRNG; built with SM2 keys, with mixed key types and as ECDSA twin for crypto/x509, created by %s)", i, recipeName(i), []string{"smx509", "crypto/x509"}[i%2])
 		if c == nil {
 			continue
 		}
@@ -992,10 +993,10 @@ func runTopology(c *mon.Case, i int) {
 		label string
 		keys  []key
 		std   bool
-	}{{"sm2", sm2Keys, false}, {"mixed", mixKeys, false}, {"ecdsa-stdlib", ecKeys, true}} {
-		in, err := t.build(c, b.label, b.keys, b.std)
+	}{{"sm2", sm2Keys, false}, {"mixed", mixKeys, false}, {"ecdsa-twin", ecKeys, true}} {
+		in, err := t.build(c, b.label, b.keys, b.std, i%2 == 1)
 		if err != nil {
-			if b.std {
+			if b.std && i%2 == 1 {
 				c.Inconclusive("twin instance could not be created by crypto/x509: %v", err)
 				insts = append(insts, nil)
 				continue
